@@ -99,6 +99,8 @@ impl<T: High> Next<&T> for Maximum {
 
 impl Reset for Maximum {
     fn reset(&mut self) {
+        self.max_index = 0;
+        self.cur_index = 0;
         for i in 0..self.period {
             self.deque[i] = f64::NEG_INFINITY;
         }
